@@ -109,6 +109,28 @@ pub fn check(sc: &Scenario, out: &RunOutput) -> OracleResult {
         }
     }
 
+    // (2') wired to each other and staying so: on a network that loses nothing (duplicates and
+    // reordering at most) a connection that both applications hold - the connect returned, the
+    // stream surfaced at an accept call, nobody abandoned it - carries its conversation to the
+    // end; no call on either of its streams fails.
+    if sc.param("drop_free") == Some(1) && scripts_as_generated(sc) {
+        let mut failed: BTreeMap<usize, (T, usize, String)> = BTreeMap::new();
+        for (t, a) in h.apps() {
+            if a.conn >= 1000 {
+                continue;
+            }
+            if let (AppKind::Read { .. } | AppKind::Write { .. } | AppKind::Flush | AppKind::Shutdown, AppRes::Err(e)) = (&a.kind, &a.res) {
+                failed.entry(a.conn).or_insert((t, a.node, e.clone()));
+            }
+        }
+        for (k, (t, node, e)) in failed {
+            let held = connect_done.get(&k).is_some_and(|(_, _, r)| r.is_ok()) && paired.contains_key(&k) && !connect_cancel.contains_key(&k);
+            if held {
+                res.violate(P, "paired-connection-torn-apart", t, format!("nothing was lost on this network, connect {} returned Ok and surfaced at accept {}, yet a call on its stream at node {} failed at {}: {}", k, paired[&k].0, node, crate::hist::fmt_t(t), e));
+            }
+        }
+    }
+
     // wire view at the listener: distinct SYNs in order of first delivery
     let mut syn_arrival: Vec<(T, usize, SocketAddr, u16, u16)> = vec![]; // (t, idx, src, syn id, syn seq)
     let mut seen_syn: HashSet<(SocketAddr, u16)> = HashSet::new();
@@ -299,4 +321,11 @@ pub fn check(sc: &Scenario, out: &RunOutput) -> OracleResult {
     res.hit("duplicate_syn_delivered", dup_syn);
     res.relevant = paired.len() >= 2;
     res
+}
+
+
+/// The conversation scripts are the ones the generator wrote (a minimiser that edits them leaves
+/// the space in which 'every conversation completes' can be expected).
+fn scripts_as_generated(sc: &Scenario) -> bool {
+    sc.param("app_scripts_hash").is_none_or(|h| h == sc.app_scripts_hash())
 }
